@@ -362,3 +362,15 @@ Proof.
     replace (q <? S p) with (q <=? p); [reflexivity|].
     destruct (q <=? p) eqn:E; symmetry; [apply Nat.ltb_lt; apply Nat.leb_le in E; lia|apply Nat.ltb_ge; apply Nat.leb_gt in E; lia].
 Qed.
+
+(* ---------------- what BioSeq.gc counts ---------------- *)
+Lemma gc_meaning s :
+  gc_counts s = (length (filter isGC s), length (filter isGC s) + length (filter isATU s)) /\
+  gc_counts (reverse s) = gc_counts s /\
+  (forall a b, gc_counts (a ++ b) = (fst (gc_counts a) + fst (gc_counts b), snd (gc_counts a) + snd (gc_counts b))).
+Proof.
+  split; [apply gc_counts_alt|]. split; [apply gc_reverse|].
+  intros a b. rewrite !gc_counts_alt. unfold nGC, nATU. rewrite !filter_app, !app_length. cbn [fst snd]. f_equal. lia.
+Qed.
+Lemma witness_gc : gc_counts (bs "SSGC-NRAU"%bs) = (2, 4) /\ gc_counts (bs "SN-."%bs) = (0, 0).
+Proof. vm_compute. split; reflexivity. Qed.
